@@ -24,7 +24,8 @@ ASSUMPTIONS = [
 REQUIRED = ['one_shot_fired', 'persistent_fired_3plus', 'interval_zero', 'equal_expiries', 'datetime_deadline', 'reset_live_timer',
             'unregister_live_timer', 'unregister_persistent_after_firing', 'idle_wait_bounded_by_timer', 'two_timers_alive', 'sleep_task_present',
             'unbounded_idle_without_timers', 'double_event_instances', 'virtual_time_calls', 'source_fire_seen',
-            'datetime_deadline_in_non_utc_zone', 'handler_consumed_time', 'clock_advances_between_readings', 'reset_with_new_interval', 'reset_to_zero_interval']
+            'datetime_deadline_in_non_utc_zone', 'handler_consumed_time', 'clock_advances_between_readings', 'reset_with_new_interval', 'reset_to_zero_interval',
+            'timer_registered_from_another_thread_while_loop_idle', 'registering_thread_preempted_inside_register']
 REQUIRED_OBLIGATIONS = ['NOT_EARLY', 'ONE_SHOT_ONCE', 'ONE_SHOT_DETACHED', 'PERSISTENT_SPACING', 'NO_FIRE_AFTER_UNREGISTER', 'RESET_RESTARTS',
                         'NO_OVERSLEEP', 'PROMPT']
 WORKER_TIMEOUT = {'quick': 300, 'thorough': 1500}
@@ -405,9 +406,52 @@ def gen_case(rng):
 
 
 def plan(tier, seed):
+    # Timers created and registered by ANOTHER thread while the loop is idle, under the controlled scheduler of C03: the registering thread
+    # is pre-empted after each of its first yield points, the loop runs until it blocks again, then the registration completes
+    mechs = ['fallback', 'Select'] if tier == 'quick' else ['fallback', 'Select', 'Poll', 'EPoll']
+    sched = [{'kind': 'sched', 'mech': m, 'lo': lo, 'hi': lo + 300} for m in mechs for lo in (1, 301, 601)]
     if tier == 'quick':
-        return [{'kind': 'corpus'}] + [{'kind': 'random', 'seed': seed * 1000 + i, 'n': 40} for i in range(15)]
-    return [{'kind': 'corpus'}] + [{'kind': 'random', 'seed': seed * 100000 + i, 'n': 1000} for i in range(32)]
+        return [{'kind': 'corpus'}] + [{'kind': 'random', 'seed': seed * 1000 + i, 'n': 40} for i in range(15)] + sched
+    return [{'kind': 'corpus'}] + [{'kind': 'random', 'seed': seed * 100000 + i, 'n': 1000} for i in range(32)] + sched
+
+
+def run_sched_batch(spec):
+    from checks import c03
+    from vlib import sched
+    import os
+    sched.install_and_import()
+    import circuits
+    sched.start_monitoring(os.path.join(os.path.dirname(circuits.__file__), 'core') + os.sep)
+    b = Batch(PROPERTY)
+    scn = {'mech': spec['mech'], 'firers': 1, 'events': 1, 'via': 'timer', 'interval': 0.001}
+    INF = c03.INF
+    if '_replay' in spec:
+        todo = [[tuple(x) for x in spec['_replay']['plan']]]
+        scn = spec['_replay']['sched']
+    else:
+        todo = [[('L', INF), ('F0', k), ('L', INF), ('F0', INF), ('L', INF)] for k in list(range(spec['lo'], spec['hi'])) + ([INF] if spec['lo'] == 1 else [])]
+    for pl in todo:
+        res = c03.run_schedule(scn, plan=pl)
+        case = {'sched': scn, 'plan': [list(x) for x in pl]}
+        preempted = any(sw[0] == 'F0' and sw[1] == 'L' and not str(sw[2]).startswith('finish:') for sw in res['switches'])
+        if res['violation'] or res['deadlock']:
+            b.case(case, nontrivial=True, distinct_key=[list(x[:3]) for x in res['switches']])
+            b.fail(case, 'NO_OVERSLEEP', {'note': 'a Timer registered from another thread is pending, its register() has returned, and the loop sleeps without limit',
+                                          'scheduler_report': res['violation'] or res['deadlock'], 'switches': [list(x) for x in res['switches'][-6:]]}, dedup='sched')
+            continue
+        if not res['finished']:
+            b.inconclusive_because('scheduled cross-thread registration did not finish')
+            continue
+        b.case(case, nontrivial=preempted, distinct_key=[list(x[:3]) for x in res['switches']])
+        b.reached('timer_registered_from_another_thread_while_loop_idle')
+        if preempted:
+            b.reached('registering_thread_preempted_inside_register')
+        if res['dispatched'] == [(0, 0)]:
+            b.ok('NO_OVERSLEEP')
+            b.ok('ONE_SHOT_ONCE')
+        else:
+            b.fail(case, 'ONE_SHOT_ONCE', {'note': 'the timer registered from another thread did not fire exactly once', 'dispatched': res['dispatched']}, dedup='sched-once')
+    return b.result()
 
 
 def evaluate_case(b, case, clock):
@@ -450,6 +494,8 @@ def _setup():
 
 
 def run_batch(spec):
+    if spec['kind'] == 'sched':
+        return run_sched_batch(spec)
     clock = _setup()
     b = Batch(PROPERTY)
     if spec['kind'] == 'corpus':
@@ -465,6 +511,8 @@ def run_batch(spec):
 
 
 def run_replay(case):
+    if 'sched' in case:
+        return run_sched_batch({'kind': 'sched', 'mech': case['sched']['mech'], '_replay': case})
     clock = _setup()
     b = Batch(PROPERTY)
     evaluate_case(b, unjson(case), clock)
